@@ -20,6 +20,13 @@ PROPS = {
         assumptions=['crash model: a WriteAt is persisted per logical sector in any subset from the stated family, writes separated by Sync() are ordered; no bit rot inside a sector',
                      'all GUIDs are given so that "exactly old / exactly new" is computed from the specification, not from the library'],
     ),
+    'C13': dict(
+        level='exploration',
+        quick=dict(runs=[run('TestC13', 2500, timeout=240)]),
+        thorough=dict(runs=[run('TestC13', 60000, timeout=1500), run('TestC13Big', 1, shards=1, timeout=1500)]),
+        assumptions=['MBR cases use 512-byte sectors only (mbr.Read ignores its sector-size arguments by its own comment)',
+                     'on a refused write only containment is checked (no byte outside the partition changes); content equality is demanded for accepted writes'],
+    ),
     'C15': dict(
         level='fault_enumeration', count_sub_nontrivial=True, crash_is_violation=True, mem_kb=6_000_000,
         quick=dict(runs=[run('TestC15', 20, timeout=240)]),
